@@ -11,7 +11,7 @@ import (
 func init() {
 	register(&propSpec{
 		id: "C19", title: "A failed reload never takes the dev server down", run: runC19,
-		notCovered:  "port release timing, fsnotify/polling behaviour, debounce timing, request continuity during the swap, side effects of setupRoutes on package-level state",
+		notCovered:  "fsnotify/polling behaviour, debounce timing, requests in flight while the handler is swapped, what a module must contain to be worth serving beyond being non-empty",
 		assumptions: []string{"the dev server swap is hotReloadManager.startServer; the library reload path is hotreload.ReloadManager.handleChanges"},
 	})
 }
@@ -276,6 +276,136 @@ func runC19(c *Ctx) {
 				c.ob("C19-R4", fnKey(fn)+"#exclude-applied-below-the-watched-root", call.Pos(), !raw, "the exclusion test is applied to the path as walked (including the watched root's own directories): a root below a directory named like an exclude word is skipped entirely")
 			})
 		}
+	}
+
+	// ---- R10 listener continuity: a reload never closes the listener
+	c.rule("C19-R10", "WCS/ORD: nothing reachable from hotReloadManager.reload (resolved calls within the module) stops or closes an http.Server or a net.Listener: while an edit is being loaded the running version keeps accepting connections (stop-then-listen refused them for the length of the shutdown timeout); and startServer returns success only after a value built by prepareDevServer was handed on (stored or passed to a call): success is never reported for a version that was not installed")
+	if rl := c.mustFn("C19-R10", glyphCmd, "hotReloadManager.reload"); rl != nil {
+		var where ssa.Instruction
+		var inFn *ssa.Function
+		seen := map[*ssa.Function]bool{}
+		var walk func(fn *ssa.Function, depth int)
+		walk = func(fn *ssa.Function, depth int) {
+			if fn == nil || seen[fn] || depth > 8 || len(fn.Blocks) == 0 {
+				return
+			}
+			seen[fn] = true
+			for _, f := range withAnon(fn) {
+				eachInstr(f, func(_ *ssa.BasicBlock, _ int, ins ssa.Instruction) {
+					if isCallTo(ins, "net/http.Server.Shutdown", "net/http.Server.Close", "net.Listener.Close", "net.TCPListener.Close") {
+						if where == nil {
+							where, inFn = ins, f
+						}
+					}
+					if call, ok := ins.(ssa.CallInstruction); ok {
+						if sf := staticFn(call); sf != nil && sf.Pkg != nil && strings.HasPrefix(sf.Pkg.Pkg.Path(), modPath) {
+							walk(sf, depth+1)
+						}
+					}
+				})
+			}
+		}
+		walk(rl, 0)
+		p := rl.Pos()
+		detail := ""
+		if where != nil {
+			p = where.Pos()
+			detail = "a reload stops the running server (" + fnKey(inFn) + "): from that call until the replacement listens nothing accepts connections, and an open live-reload stream makes Shutdown wait for its whole timeout"
+		}
+		c.ob("C19-R10", fnKey(rl)+"#reload-never-closes-the-listener", p, where == nil, detail)
+		c.Sites["C19-R10#functions-reachable-from-reload"] = len(seen)
+	}
+	if ss := c.fn(glyphCmd, "hotReloadManager.startServer"); ss != nil {
+		var prep *ssa.Call
+		eachInstr(ss, func(_ *ssa.BasicBlock, _ int, ins ssa.Instruction) {
+			if call, ok := ins.(*ssa.Call); ok && strings.HasSuffix(callName(call), "hotReloadManager.prepareDevServer") {
+				prep = call
+			}
+		})
+		if prep == nil {
+			c.ob("C19-R10", fnKey(ss)+"#installs-what-it-built", ss.Pos(), false, "startServer does not build the new version through prepareDevServer")
+		} else {
+			built := extractOf(prep, 0)
+			isBuilt := func(v ssa.Value) bool {
+				return derivesFrom(v, func(x ssa.Value) bool {
+					for _, b := range built {
+						if x == b {
+							return true
+						}
+					}
+					return false
+				})
+			}
+			hands := func(ins ssa.Instruction) bool {
+				switch x := ins.(type) {
+				case *ssa.Store:
+					return isBuilt(x.Val)
+				case ssa.CallInstruction:
+					if n := callName(x); strings.HasPrefix(n, "fmt.") || strings.HasPrefix(n, modPath+"/cmd/glyph.print") {
+						return false
+					}
+					for _, a := range x.Common().Args {
+						if isBuilt(a) {
+							return true
+						}
+					}
+				}
+				return false
+			}
+			q := &pathQuery{fn: ss, stop: hands, target: func(x ssa.Instruction) bool {
+				r, ok := x.(*ssa.Return)
+				return ok && len(r.Results) > 0 && isNilConst(stripConv(retVals(r)[len(r.Results)-1]))
+			}}
+			hit, path := q.after(prep)
+			c.ob("C19-R10", fnKey(ss)+"#installs-what-it-built", prep.Pos(), hit == nil, "startServer reports success on a path that neither stores nor passes on anything prepareDevServer built: the reload is announced but the old version keeps serving", c.blockPath(path)...)
+		}
+	}
+
+	// ---- R11 an empty source is not a version
+	c.rule("C19-R11", "MPT: in prepareDevServer a branch whose condition depends on the parsed module's Items (their number, or a boolean predicate of cmd/glyph over the module) has an edge from which no success return is reachable: on a reload, the empty file an editor leaves between truncating and writing is a failed load, not a version that replaces the running one")
+	if pd := c.fn(glyphCmd, "hotReloadManager.prepareDevServer"); pd != nil {
+		found := false
+		nIf := 0
+		for _, b := range pd.Blocks {
+			iff := ifOf(b)
+			if iff == nil {
+				continue
+			}
+			dep := derivesFrom(iff.Cond, func(x ssa.Value) bool {
+				switch y := x.(type) {
+				case *ssa.Call:
+					if callName(y) == "builtin.len" {
+						return derivesFrom(y.Call.Args[0], func(z ssa.Value) bool { return loadedFromField(z, "Module", "Items") })
+					}
+					if sf := staticFn(y); sf != nil && sf.Pkg != nil && sf.Pkg.Pkg.Path() == modPath+"/cmd/glyph" && sf.Signature.Results().Len() == 1 {
+						if bt, ok := sf.Signature.Results().At(0).Type().Underlying().(*types.Basic); ok && bt.Kind() == types.Bool {
+							for _, a := range y.Call.Args {
+								if typeIs(a.Type(), modPath+"/pkg/ast", "Module") {
+									return true
+								}
+							}
+						}
+					}
+				}
+				return false
+			})
+			if !dep {
+				continue
+			}
+			nIf++
+			for si, succ := range b.Succs {
+				_ = si
+				q := &pathQuery{fn: pd, target: func(x ssa.Instruction) bool {
+					r, ok := x.(*ssa.Return)
+					return ok && len(r.Results) > 0 && isNilConst(stripConv(retVals(r)[len(r.Results)-1]))
+				}}
+				if h, _ := q.from(succ, 0); h == nil {
+					found = true
+				}
+			}
+		}
+		c.Sites["C19-R11#branches-on-module-items"] = nIf
+		c.ob("C19-R11", fnKey(pd)+"#empty-source-is-a-failed-load", pd.Pos(), found, "prepareDevServer accepts a module whatever it contains: a file read while the editor has truncated it (empty, blank, comments only) parses to zero items, counts as a successful reload and replaces the working server by one that answers 404 to every route")
 	}
 
 	c.rule("C19-R2", "MPT: in ReloadManager.handleChanges, from the err!=nil edge of CompileFile neither server.Reload nor server.SetState is reachable and every path to return passes notifyReload with Success:false; Reload's argument is CompileFile's result; SetState is reachable only from Reload's err==nil edge; compile and install happen in one critical section of rm.mu (no Unlock between CompileFile and Reload)")
